@@ -499,7 +499,8 @@ static void run_program_t(const Program& p, int pidx, bool verbose) {
       std::vector<uint32_t> ec, e1; uint32_t fc = 0; std::string ic, i1; bool guard = false; std::vector<FuncFrame> frames;
       run_builder<CompilerT>(p, wb, verbose, "STEPF", pidx, ec, fc, ic, out, &frames);
       run_reference<AsmT>(p, wb, false, nullptr, false, e1, i1, guard, &frames);
-      if (wb == 0) { out += P + "EA " + errs_str(e1) + "\n"; out += P + "EC " + errs_str(ec) + " F=" + u(fc) + "\n"; out += P + "NFRAMES " + u(frames.size()) + "\n"; }
+      if (wb == 0) { out += P + "EA " + errs_str(e1) + "\n"; out += P + "EC " + errs_str(ec) + " F=" + u(fc) + "\n"; size_t nt = 0; for (const FuncFrame& f : frames) if (f.has_func_calls() || f.stack_adjustment() != 0 || f.saved_regs(RegGroup::kGp) != 0) nt++;
+        out += P + "NFRAMES " + u(frames.size()) + " " + u(nt) + "\n"; }
       out += P + "IMG" + std::to_string(wb) + " R1 " + i1 + "\n";
       out += P + "IMG" + std::to_string(wb) + " C " + ic + "\n";
     }
